@@ -8,6 +8,8 @@
 (*   add   f new wl          `new` = the nodes pushed, in push order;      *)
 (*                           wl = the list afterwards                      *)
 (*   pop   f s wl            s was removed; wl = the list afterwards       *)
+(*   tstart / tenq n fresh / tpop n   the taint worklist (a FIFO with a    *)
+(*                           queued-set): enqueue order and pop order      *)
 (* One TLC state per event; the model list of every frame is evolved by    *)
 (* HeapPush / PopFront and compared with the logged list after every       *)
 (* operation.  A mismatch is model drift (the proof of StmtWorklist's      *)
@@ -27,8 +29,9 @@ HeapPush(h, x) == SiftUp(Append(h, x), Len(h) + 1)
 PopFront(h) == Tail(h)
 Stmts(h) == [j \in 1..Len(h) |-> h[j][2]]
 
-VARIABLES c, i, heaps, prios, drift, ops
-vars == <<c, i, heaps, prios, drift, ops>>
+VARIABLES c, i, heaps, prios, drift, ops,
+          tq          \* the taint worklist of the propagation in progress (PathFinder.propagate_taint): a FIFO of state-flow-graph nodes
+vars == <<c, i, heaps, prios, drift, ops, tq>>
 Ev == Doc.cases[c].events
 Has(f) == f \in DOMAIN heaps
 Set(fn, k, v) == [x \in DOMAIN fn \cup {k} |-> IF x = k THEN v ELSE fn[x]]
@@ -37,7 +40,7 @@ Mark(d) == IF drift = "" THEN d \o "@" \o ToString(i) ELSE drift
 RECURSIVE PushSeq(_, _, _)
 PushSeq(h, f, new) == IF new = << >> THEN h ELSE PushSeq(HeapPush(h, <<PrioOf(f, Head(new)), Head(new)>>), f, Tail(new))
 
-Init == c \in 1..Len(Doc.cases) /\ i = 1 /\ heaps = << >> /\ prios = << >> /\ drift = "" /\ ops = 0
+Init == c \in 1..Len(Doc.cases) /\ i = 1 /\ heaps = << >> /\ prios = << >> /\ drift = "" /\ ops = 0 /\ tq = << >>
 
 Step ==
   /\ i <= Len(Ev)
@@ -66,7 +69,17 @@ Step ==
                  /\ drift' = IF heaps[e.f][1][2] # e.s THEN Mark("pop_did_not_remove_the_first_list_element")
                              ELSE IF Stmts(h2) # e.wl THEN Mark("list_after_pop_differs") ELSE drift
                  /\ ops' = ops + 1 /\ UNCHANGED prios
+       (* taint worklist: _enqueue appends a node unless it is already queued (fresh = it was not); the loop pops from the left *)
+       [] e.e = "tstart" -> UNCHANGED <<heaps, prios, drift, ops>>
+       [] e.e = "tenq" -> UNCHANGED <<heaps, prios, ops>> /\ drift' = IF e.fresh = (\E j \in 1..Len(tq) : tq[j] = e.n) THEN Mark("taint_enqueue_dedup_differs") ELSE drift
+       [] e.e = "tpop" -> UNCHANGED <<heaps, prios>> /\ ops' = ops + 1
+                          /\ drift' = IF tq = << >> \/ Head(tq) # e.n THEN Mark("taint_pop_is_not_fifo") ELSE drift
        [] OTHER -> UNCHANGED <<heaps, prios, drift, ops>>
+  /\ tq' = LET e == Ev[i] IN
+           CASE e.e = "tstart" -> << >>
+             [] e.e = "tenq" -> IF e.fresh THEN Append(tq, e.n) ELSE tq
+             [] e.e = "tpop" -> IF tq # << >> /\ Head(tq) = e.n THEN Tail(tq) ELSE SelectSeq(tq, LAMBDA x : x # e.n)
+             [] OTHER -> tq
   /\ i' = i + 1 /\ c' = c
 
 Next == Step
